@@ -28,6 +28,16 @@ package syntax
 // to the DIRECTORY OF THE INCLUDING FILE (not of the root journal, not the working directory); other
 // directives start nothing. (The loader itself - goroutines, channels, errgroup - is outside the
 // verified subset; this closure is its only sequential decision.)
+// onChain (C14): the sequential decision of the include-cycle guard - is this file one of the files on the way
+// from the root journal to the file being loaded. (That the loader consults it before reading, and terminates,
+// is exercised by the bounded stand-in include-cycles only: goroutines.)
+//@ func onChain
+//@   modifies nothing
+//@   ensures [C14] @member: result <==> (exists i int :: 0 <= i && i < len(chain) && chain[i] == file)
+//@   loop 1 invariant 0 <= $i && $i <= len(chain)
+//@   loop 1 invariant forall k int :: {chain[k]} 0 <= k && k < $i ==> chain[k] != file
+//@   loop 1 decreases len(chain) - $i
+//
 //@ func parseRec$1
 //@   requires inText(d.Range) && okDirective(d)
 //@   modifies *
